@@ -509,3 +509,71 @@ pub fn arb_wide(max_w: usize) -> BoxedStrategy<Shape> {
         })
         .boxed()
 }
+
+/// Long collections (100-1500 elements) whose elements are options (mostly `None` or mostly `Some`), unit variants,
+/// small records with optional fields: lots of elements, little data per element.
+pub fn arb_long_sparse() -> BoxedStrategy<(Shape, Value)> {
+    use crate::dynshape::{Name, VKind, Variant};
+    let n = prop_oneof![Just(125usize), Just(126), Just(127), Just(128), Just(129), Just(130), Just(255), Just(256), Just(257), 100usize..400, Just(1000), Just(1500)];
+    (n, 0..8u8, any::<u64>())
+        .prop_map(|(n, kind, seed)| {
+            let bit = |i: usize| (seed >> (i % 61)) & 1 == 1;
+            let opt_u16 = Shape::Option(Box::new(Shape::U16));
+            let record = Shape::Struct(Name("Rec"), vec![(Name("a"), Shape::Option(Box::new(Shape::U8))), (Name("b"), Shape::Option(Box::new(Shape::String))), (Name("id"), Shape::U8)]);
+            let unit_enum = Shape::Enum(
+                Name("Flag"),
+                vec![
+                    Variant { index: 0, name: Name("Off"), kind: VKind::Unit },
+                    Variant { index: 1, name: Name("On"), kind: VKind::Unit },
+                    Variant { index: 2, name: Name("Val"), kind: VKind::Newtype(Box::new(Shape::Option(Box::new(Shape::Bool)))) },
+                ],
+            );
+            match kind {
+                0 => (Shape::Seq(Box::new(opt_u16)), Value::List(vec![Value::None; n])),
+                1 => (Shape::Seq(Box::new(opt_u16)), Value::List((0..n).map(|i| Value::Some(Box::new(Value::U(i as u128 % 70000)))).collect())),
+                2 => (
+                    Shape::Seq(Box::new(opt_u16)),
+                    Value::List((0..n).map(|i| if bit(i) { Value::Some(Box::new(Value::U(i as u128))) } else { Value::None }).collect()),
+                ),
+                3 => (
+                    Shape::Seq(Box::new(record)),
+                    Value::List(
+                        (0..n)
+                            .map(|i| {
+                                Value::List(vec![
+                                    if bit(i) { Value::Some(Box::new(Value::U(i as u128 % 256))) } else { Value::None },
+                                    if bit(i + 7) { Value::Some(Box::new(Value::Str(format!("s{}", i)))) } else { Value::None },
+                                    Value::U(i as u128 % 256),
+                                ])
+                            })
+                            .collect(),
+                    ),
+                ),
+                4 => (
+                    Shape::Seq(Box::new(unit_enum)),
+                    Value::List(
+                        (0..n)
+                            .map(|i| match i % 3 {
+                                0 => Value::Variant(0, Box::new(Value::Unit)),
+                                1 => Value::Variant(1, Box::new(Value::Unit)),
+                                _ => Value::Variant(2, Box::new(if bit(i) { Value::Some(Box::new(Value::Bool(true))) } else { Value::None })),
+                            })
+                            .collect(),
+                    ),
+                ),
+                5 => (
+                    Shape::Map(Box::new(Shape::String), Box::new(Shape::Option(Box::new(Shape::U8)))),
+                    Value::Map((0..n).map(|i| (Value::Str(format!("k{:05}", i)), if bit(i) { Value::Some(Box::new(Value::U(7))) } else { Value::None })).collect()),
+                ),
+                6 => (
+                    Shape::Tuple(vec![Shape::Seq(Box::new(Shape::Option(Box::new(Shape::Tuple(vec![Shape::U8, Shape::Bool]))))), Shape::Option(Box::new(Shape::Seq(Box::new(Shape::U8))))]),
+                    Value::List(vec![
+                        Value::List((0..n).map(|i| if bit(i) { Value::Some(Box::new(Value::List(vec![Value::U(1), Value::Bool(false)]))) } else { Value::None }).collect()),
+                        Value::Some(Box::new(Value::List(vec![Value::U(9); 3]))),
+                    ]),
+                ),
+                _ => (Shape::Seq(Box::new(Shape::Seq(Box::new(Shape::Option(Box::new(Shape::I8)))))), Value::List((0..n / 4).map(|i| Value::List(vec![Value::None, Value::Some(Box::new(Value::I(-(i as i128 % 100)))), Value::None, Value::None])).collect())),
+            }
+        })
+        .boxed()
+}
